@@ -49,7 +49,9 @@ RULE = ("the REAL server loop (see C10) with honest echo clients running through
         "block-listed ips, damaged/stale/re-typed copies of genuine client datagrams with spoofed source address, peers that hold the session "
         "key without answering the challenge and seal several hellos into one datagram, at MTU 1500, 512 and the band "
         "370..420 in which the padded hello is about as large as the server hello; "
-        "compared with the model per iteration (events, sends, pools, entry drops); non-trivial = at least 10 hostile datagrams and one "
+        "compared with the model per iteration (events, sends, pools, entry drops); the second entry point (_UdpServer.run, over a scripted "
+        "socket) must queue exactly what TwistedServer.datagramReceived queued, with the block list installed before / after / as a replacement "
+        "/ in place; non-trivial = at least 10 hostile datagrams and one "
         "honest message delivered")
 
 
@@ -128,6 +130,8 @@ def run(ctx):
     for c in cases:
         recs, log, block = extra[core.case_id(c)]
         monitor(c, outputs[core.case_id(c)], recs, log, ctx, block)
+        if not ctx.failures:
+            serverlib.udp_entry_monitor(real, rng, c, recs, block, ctx)
         if not ctx.failures:
             serverlib.honest_monitor(c, recs, log, ctx)
         if not ctx.failures:
